@@ -546,6 +546,14 @@ theorem sysOfSpans_eq (l : List Span) (hok : ∀ x ∈ l, SpanOK s x) : sysOfSpa
     rw [hv] at this
     exact this.1
 
+theorem minSorted_of_length_le_one (l : List Span) (h : l.length ≤ 1) : MinSorted s l := by
+  cases l with
+  | nil => exact List.Pairwise.nil
+  | cons x l =>
+    cases l with
+    | nil => exact List.pairwise_singleton _ _
+    | cons y l => simp at h
+
 /-- **Soundness of `canon`** (T6): on well-formed spans of a non-Maven generic system it
 succeeds; the result is well-formed, non-empty if the input is, sorted by `min`, every
 bound of it is a bound of the input, and it denotes the union of the input spans for every
@@ -553,11 +561,12 @@ candidate outside successor seams. -/
 theorem canonSpans_spec (P : Version → Prop) (hs : s ≠ .maven) (l : List Span)
     (hok : ∀ x ∈ l, SpanOK s x ∧ AllB P x) :
     ∃ r, canonSpans l = .ok r ∧ (∀ x ∈ r, SpanOK s x ∧ AllB P x) ∧ (l ≠ [] → r ≠ []) ∧
-      (2 ≤ l.length → MinSorted s r) ∧
-      ∀ v, SeamFree s P v → anyHas s r v = anyHas s l v := by
+      MinSorted s r ∧
+      ∀ v, (l.length ≤ 1 ∨ SeamFree s P v) → anyHas s r v = anyHas s l v := by
   unfold canonSpans
   by_cases h1 : l.length ≤ 1
-  · exact ⟨l, by simp only [h1, ↓reduceIte], hok, id, fun h => by omega, fun _ _ => rfl⟩
+  · refine ⟨l, by simp only [h1, ↓reduceIte], hok, id, ?_, fun _ _ => rfl⟩
+    exact minSorted_of_length_le_one l h1
   simp only [h1, ↓reduceIte]
   have hmv : (sysOfSpans l == System.maven) = false := by
     rcases sysOfSpans_eq l (fun x hx => (hok x hx).1) with h | h
@@ -593,8 +602,7 @@ theorem canonSpans_spec (P : Version → Prop) (hs : s ≠ .maven) (l : List Spa
       cases sorted with
       | nil => exact absurd rfl hsne
       | cons _ _ => simp
-    · intro _
-      cases sorted with
+    · cases sorted with
       | nil => simp [MinSorted]
       | cons _ _ => simp [MinSorted]
     · intro v _
@@ -616,11 +624,13 @@ theorem canonSpans_spec (P : Version → Prop) (hs : s ≠ .maven) (l : List Spa
       rw [z1, z2]
   | false =>
     simp only [Bool.false_eq_true, ↓reduceIte]
-    refine ⟨out, rfl, ?_, fun _ => g5 rfl, fun _ => g2, ?_⟩
+    refine ⟨out, rfl, ?_, fun _ => g5 rfl, g2, ?_⟩
     · intro x hx
       obtain ⟨q1, -, q3, -⟩ := g1 x hx
       exact ⟨q1, q3⟩
     · intro v hv
+      rcases hv with hv | hv
+      · exact hv.elim
       rw [g3 v hv, live_init, anyHas_congr hmem]
 
 end DepsDev.Proofs.C09
